@@ -665,8 +665,10 @@ class C06Engine(object):
               "%d inconclusive, %.1fs" % (self.tier, len(self.builds), st["sequences"], st["ops"], len(self.states),
                                           st["violating"], st["inconclusive"], time.time() - self.t0))
         if code == 0:
-            if nbuilt == 0 or st["sequences"] == 0:
-                print("HARNESS-ERROR: nothing could be built: %s" % json.dumps(st["build_errors"])[:1500])
+            never = [d for d in DRIVERS if not any(b.ok.get(d) for b in self.builds.values())]
+            if nbuilt == 0 or st["sequences"] == 0 or never:
+                print("HARNESS-ERROR: driver(s) %s could not be built for any variant (generated code does not "
+                      "compile?): %s" % (never, json.dumps(st["build_errors"])[:1500]))
                 return report.EXIT_HARNESS
             if not ok or st["harness_errors"]:
                 print("HARNESS-ERROR: self-tests=%s" % self.selftest)
